@@ -1291,9 +1291,7 @@ theorem inauthentic_is_rejected {E : Env} {n : Node} {from_ : Addr} {dg : Bytes}
     obtain ⟨f, src, _, _, _, _, ha⟩ := group_accept_only_authentic hb hd
     exact hng _ _ _ ha
 
-/-- The per-session statement for the whole receive step, **stated, not proved** (the tie checks it
-on every delivery; proved are `handleRx_rejected` + `inauthentic_is_rejected` — datagrams authentic
-for nothing — and, for `decode_packet` alone, `inauthentic_preserves_session`): whatever a datagram
+/-- The per-session statement for the whole receive step (proved below: `C03_rx_full_holds`): whatever a datagram
 causes in `handle_rx_packet` (ACK, `CloseSession`, removal of the session it *is* authentic for,
 a new session), a secure session for which it is not authentic is still in the table, unchanged —
 unless the table is full and the datagram is an authentic group message or an unsecured session
@@ -1305,6 +1303,384 @@ def C03_rx_full : Prop :=
       ((∀ c h p, decodeStage E w.node from_ dg ≠ .groupNew c h p) ∧
        (∀ h p, decodeStage E w.node from_ dg ≠ .newPlain h p))) →
     r ∈ (handleRx E now x w from_ dg).2.node
+
+/-! ### proof of `C03_rx_full` -/
+
+theorem isForRx_fixed {a b : Session} (h : fixedPart a = fixedPart b) (f : Addr) (hd : PlainHdr) :
+    a.isForRx f hd = b.isForRx f hd := by
+  simp only [fixedPart, Prod.mk.injEq] at h
+  obtain ⟨h1, h2, h3, _, _, h6, _, _, h9, _, h11⟩ := h
+  unfold Session.isForRx Session.isEncrypted
+  rw [h1, h2, h3, h6, h9, h11]
+
+theorem findIdx?_set_congr {α : Type} (p : α → Bool) (l : List α) (i : Nat) (x y : α)
+    (hi : l[i]? = some x) (hp : p y = p x) : (l.set i y).findIdx? p = l.findIdx? p := by
+  induction l generalizing i with
+  | nil => rfl
+  | cons a as ih =>
+    cases i with
+    | zero =>
+      simp only [List.getElem?_cons_zero, Option.some.injEq] at hi
+      subst hi
+      simp only [List.set_cons_zero, List.findIdx?_cons, hp]
+    | succ k =>
+      simp only [List.getElem?_cons_succ] at hi
+      simp only [List.set_cons_succ, List.findIdx?_cons, ih k hi]
+
+theorem findRx_set {n : Node} {idx : Nat} {s s' : Session} (f : Addr) (hd : PlainHdr)
+    (hi : n[idx]? = some s) (hf : fixedPart s' = fixedPart s) :
+    findRx (n.set idx s') f hd = findRx n f hd := by
+  unfold findRx
+  exact findIdx?_set_congr _ n idx s s' hi (isForRx_fixed hf f hd)
+
+theorem mem_swapRemove {α : Type} {l : List α} {i j : Nat} {x : α} (hi : l[i]? = some x) (hij : i ≠ j)
+    (hj : j < l.length) : x ∈ swapRemove l j := by
+  unfold swapRemove
+  have hil : i < l.length := (List.getElem?_eq_some_iff.mp hi).1
+  cases hl : l.getLast? with
+  | none =>
+    have : l = [] := List.getLast?_eq_none_iff.mp hl
+    subst this
+    simp at hil
+  | some last =>
+    simp only
+    have hx : l[i] = x := (List.getElem?_eq_some_iff.mp hi).2
+    split
+    · rename_i hlast
+      have hlt : i < l.length - 1 := by omega
+      rw [List.mem_iff_getElem]
+      exact ⟨i, by simp; omega, by simp [hx]⟩
+    · rename_i hnl
+      by_cases hilast : i = l.length - 1
+      · -- x is the last element; it was moved to position j
+        have hxl : x = last := by
+          have := List.getLast?_eq_getElem? (l := l)
+          rw [this] at hl
+          rw [← hilast, hi] at hl
+          injection hl
+        rw [List.mem_iff_getElem]
+        refine ⟨j, by simp; omega, ?_⟩
+        simp [hxl]
+      · rw [List.mem_iff_getElem]
+        refine ⟨i, by simp; omega, ?_⟩
+        simp [List.getElem_set, hx]
+        intro h; exact absurd h.symm hij
+
+theorem exchPostRecv_err {e : Exch} {c : Nat} {p : ProtoHdr} {x : Err} (h : e.postRecv c p = .error x) :
+    x = .Duplicate := by
+  unfold Exch.postRecv at h
+  simp only at h
+  split at h
+  · rename_i y hy
+    injection h with h
+    subst h
+    split at hy
+    · split at hy
+      · injection hy with hy; exact hy.symm
+      · cases hy
+    · cases hy
+  · cases h
+
+/-- `post_recv` fails only with these codes — never `NoSpaceSessions` -/
+theorem postRecv_err {s : Session} {h : PacketHdr} {x : Err} (hx : (s.postRecv h).1 = .error x) :
+    x = .Duplicate ∨ x = .NoExchange ∨ x = .NoSession ∨ x = .NoSpaceExchanges := by
+  unfold Session.postRecv at hx
+  simp only at hx
+  split at hx
+  · injection hx with hx; left; exact hx.symm
+  · split at hx
+    · split at hx
+      · injection hx with hx; right; left; exact hx.symm
+      · split at hx
+        · rename_i y hy
+          injection hx with hx
+          subst hx
+          left; exact exchPostRecv_err hy
+        · cases hx
+    · split at hx
+      · injection hx with hx; right; left; exact hx.symm
+      · split at hx
+        · injection hx with hx; right; right; left; exact hx.symm
+        · split at hx
+          · split at hx
+            · rename_i y hy
+              injection hx with hx
+              subst hx
+              left; exact exchPostRecv_err hy
+            · cases hx
+          · injection hx with hx; right; right; right; exact hx.symm
+
+
+/-- the reactions of `handle_rx_packet` keep a session in the table as long as the session they
+address (found by the second lookup) is another one and nothing is evicted -/
+theorem react_keeps {now x : Nat} {from_ : Addr} {h : PacketHdr} {o : Outcome} {w : World} {i : Nat} {r : Session}
+    (hi : w.node[i]? = some r)
+    (hj : ∀ j, findRx w.node from_ h.plain = some j → j ≠ i)
+    (hoh : ∀ idx nw hh p, o = .ok idx nw hh p → hh = h)
+    (hne : o = .err .NoSpaceSessions → h.plain.isEncrypted = true) :
+    r ∈ (react now x from_ h o w).2.node := by
+  have hmem : r ∈ w.node := List.mem_of_getElem? hi
+  have hrem : ∀ j, findRx w.node from_ h.plain = some j → r ∈ (w.remove j).node := by
+    intro j hf
+    obtain ⟨sj, hsj, _⟩ := findRx_isForRx hf
+    have hjl : j < w.node.length := (List.getElem?_eq_some_iff.mp hsj).1
+    exact mem_swapRemove hi (fun hx => hj j hf hx.symm) hjl
+  cases o with
+  | err e =>
+    cases e with
+    | Duplicate =>
+      unfold react
+      simp only
+      split
+      · exact hmem
+      · split
+        · cases hf : findRx w.node from_ h.plain with
+          | none => exact hmem
+          | some j =>
+            simp only
+            cases hs : w.node[j]? with
+            | none => exact hmem
+            | some sj =>
+              simp only
+              split
+              · exact hmem
+              · rename_i rep sj' _
+                simp only
+                have : (w.node.set j sj')[i]? = some r := by
+                  rw [List.getElem?_set_ne (hj j hf)]; exact hi
+                exact List.mem_of_getElem? this
+        · exact hmem
+    | NoSpaceSessions =>
+      unfold react
+      simp only
+      have := hne rfl
+      simp only [this, Bool.not_true, Bool.false_and, Bool.false_eq_true, if_false]
+      exact hmem
+    | NoSpaceExchanges =>
+      unfold react
+      simp only
+      cases hf : findRx w.node from_ h.plain with
+      | none => exact hmem
+      | some j =>
+        simp only
+        cases hs : w.node[j]? with
+        | none => exact hmem
+        | some sj =>
+          simp only
+          split <;> exact hrem j hf
+    | NoSession =>
+      unfold react
+      simp only
+      split
+      · exact hmem
+      · split <;> exact hmem
+    | Invalid => exact hmem
+    | TruncatedPacket => exact hmem
+    | InvalidData => exact hmem
+    | NoExchange => exact hmem
+    | BufferTooSmall => exact hmem
+    | InvalidState => exact hmem
+    | InvalidSignature => exact hmem
+  | ok idx nw hh p =>
+    have := hoh idx nw hh p rfl
+    subst this
+    unfold react
+    simp only
+    split
+    · exact hmem
+    · split
+      · cases hf : findRx w.node from_ hh.plain with
+        | none => exact hmem
+        | some j => exact hrem j hf
+      · exact hmem
+
+
+theorem receive_decoded {E : Env} {now : Nat} {w : World} {from_ : Addr} {dg p : Bytes} {idx : Nat}
+    {hh : PacketHdr} {s : Session} (hst : decodeStage E w.node from_ dg = .decoded idx hh p)
+    (hs : w.node[idx]? = some s) :
+    ((receive E now w from_ dg).2.node = w.node ∨
+      (receive E now w from_ dg).2.node = w.node.set idx (s.postRecv hh).2) ∧
+    (∀ i nw h' p', (receive E now w from_ dg).1 = .ok i nw h' p' → h' = hh) ∧
+    (receive E now w from_ dg).1 ≠ .err .NoSpaceSessions := by
+  unfold receive
+  simp only [touch_node, hst, hs]
+  cases hc : ((w.touch now from_ dg).groupDataCheck s hh.plain).1 with
+  | some e =>
+    simp only
+    refine ⟨Or.inl (by rw [groupDataCheck_node, touch_node]), ⟨(fun _ _ _ _ hx => by cases hx), ?_⟩⟩
+    intro hx
+    injection hx with hx
+    subst hx
+    unfold World.groupDataCheck at hc
+    split at hc
+    · split at hc
+      · split at hc
+        · cases hc
+        · simp only at hc
+          split at hc <;> cases hc
+      · cases hc
+    · cases hc
+  | none =>
+    simp only
+    refine ⟨Or.inr (by rw [deliverAt_node, groupDataCheck_node, touch_node]), ⟨?_, ?_⟩⟩
+    · intro i nw h' p' hx
+      unfold World.deliverAt at hx
+      simp only at hx
+      split at hx
+      · cases hx
+      · injection hx with _ _ h3 _; exact h3.symm
+    · intro hx
+      unfold World.deliverAt at hx
+      simp only at hx
+      split at hx
+      · rename_i e he
+        injection hx with hx
+        subst hx
+        rcases postRecv_err he with h | h | h | h <;> cases h
+      · cases hx
+
+theorem deliverLast_out {w : World} {s : Session} {hh : PacketHdr} {p : Bytes} :
+    (∀ i nw h' p', (w.deliverLast s hh p).1 = .ok i nw h' p' → h' = hh) ∧
+    (w.deliverLast s hh p).1 ≠ .err .NoSpaceSessions := by
+  unfold World.deliverLast
+  simp only
+  constructor
+  · intro i nw h' p' hx
+    split at hx
+    · cases hx
+    · injection hx with _ _ h3 _; exact h3.symm
+  · intro hx
+    split at hx
+    · rename_i e he
+      injection hx with hx
+      subst hx
+      rcases postRecv_err he with h | h | h | h <;> cases h
+    · cases hx
+
+theorem findRx_append_none {n : Node} {s' : Session} {f : Addr} {hd : PlainHdr} {j : Nat}
+    (hn : findRx n f hd = none) (hj : findRx (n ++ [s']) f hd = some j) : n.length ≤ j := by
+  unfold findRx at hn hj
+  rw [List.findIdx?_append, hn] at hj
+  simp only [Option.none_or, Option.map_eq_some_iff] at hj
+  obtain ⟨k, _, hk⟩ := hj
+  omega
+
+/-- **The whole receive step leaves every secure session for which the datagram is not authentic in
+the table, unchanged** — whatever `handle_rx_packet` does (stand-alone ACK, `CloseSession`, removal of
+the session the datagram *is* authentic for, a new session, `SessionNotFound`) — unless the table is
+full and the datagram is an authentic group message or an unsecured session request (eviction of
+the least recently used idle session). -/
+theorem handleRx_keeps_inauthentic_session {E : Env} {now x : Nat} {w : World} {from_ : Addr} {dg : Bytes}
+    {i : Nat} {r : Session} (hb : BytesOK dg) (hi : w.node[i]? = some r) (hr : r.isEncrypted = true)
+    (hna : ¬ AuthenticFor E.t r dg)
+    (hroom : w.node.length < MAX_SESSIONS ∨
+      ((∀ c h p, decodeStage E w.node from_ dg ≠ .groupNew c h p) ∧
+       (∀ h p, decodeStage E w.node from_ dg ≠ .newPlain h p))) :
+    r ∈ (handleRx E now x w from_ dg).2.node := by
+  have hil : i < w.node.length := (List.getElem?_eq_some_iff.mp hi).1
+  cases hst : decodeStage E w.node from_ dg with
+  | rej e hh =>
+    rw [(handleRx_rejected (now := now) (x := x) hst).1]
+    exact List.mem_of_getElem? hi
+  | decoded idx hh p =>
+    obtain ⟨rest, s, _, _, hf, hs, _⟩ := decoded_inv hb hst
+    have hne : idx ≠ i := by
+      intro hx
+      subst hx
+      rw [hs] at hi
+      injection hi with hi
+      subst hi
+      exact hna (accept_only_authentic hb hst hs hr)
+    obtain ⟨hnode, hok, hnss⟩ := receive_decoded (now := now) hst hs
+    unfold handleRx
+    simp only [touch_node, hst, Stage.hdr]
+    have hi1 : (receive E now w from_ dg).2.node[i]? = some r := by
+      rcases hnode with h | h
+      · rw [h]; exact hi
+      · rw [h, List.getElem?_set_ne hne]; exact hi
+    have hf1 : findRx (receive E now w from_ dg).2.node from_ hh.plain = some idx := by
+      rcases hnode with h | h
+      · rw [h]; exact hf
+      · rw [h, findRx_set from_ hh.plain hs (postRecv_fixed s hh)]; exact hf
+    exact react_keeps hi1 (fun j hj => by rw [hf1] at hj; injection hj with hj; omega)
+      (fun a b c d hx => hok a b c d hx) (fun hx => absurd hx hnss)
+  | newPlain hh p =>
+    have hlt : w.node.length < MAX_SESSIONS := by
+      rcases hroom with h | ⟨_, h⟩
+      · exact h
+      · exact absurd hst (h hh p)
+    have henc := newPlain_unencrypted hst
+    unfold handleRx
+    simp only [touch_node, hst, Stage.hdr]
+    have hrec : ∃ w1, (w.touch now from_ dg).add now { addr := from_, peerNode := hh.plain.srcNode } = some w1 ∧
+        receive E now w from_ dg = w1.deliverLast { addr := from_, peerNode := hh.plain.srcNode } hh p := by
+      unfold receive
+      simp only [touch_node, hst]
+      cases ha : (w.touch now from_ dg).add now { addr := from_, peerNode := hh.plain.srcNode } with
+      | none => have := add_none_full ha; rw [touch_node] at this; omega
+      | some w1 => exact ⟨w1, rfl, rfl⟩
+    obtain ⟨w1, ha, hrec⟩ := hrec
+    have hn1 := (add_node ha).1
+    rw [touch_node] at hn1
+    have hnode := deliverLast_node w1 _ hh p _ hn1
+    obtain ⟨hok, hnss⟩ := deliverLast_out (w := w1) (s := { addr := from_, peerNode := hh.plain.srcNode }) (hh := hh) (p := p)
+    rw [hrec]
+    have hi1 : (w1.deliverLast { addr := from_, peerNode := hh.plain.srcNode } hh p).2.node[i]? = some r := by
+      rw [hnode, List.getElem?_append_left hil]; exact hi
+    refine react_keeps hi1 ?_ (fun a b c d hx => hok a b c d hx) (fun hx => absurd hx hnss)
+    intro j hj hji
+    subst hji
+    obtain ⟨sj, hsj, hfor⟩ := findRx_isForRx hj
+    rw [hi1] at hsj
+    injection hsj with hsj
+    subst hsj
+    unfold Session.isForRx at hfor
+    simp only [Bool.and_eq_true, beq_iff_eq] at hfor
+    rw [hfor.1.2, henc] at hr
+    cases hr
+  | groupNew c hh p =>
+    have hlt : w.node.length < MAX_SESSIONS := by
+      rcases hroom with h | ⟨h, _⟩
+      · exact h
+      · exact absurd hst (h c hh p)
+    obtain ⟨rest, src, _, _, hfn, hgrp, _, _, _⟩ := groupNew_inv hb hst
+    have henc : hh.plain.isEncrypted = true := by simp [PlainHdr.isEncrypted, hgrp]
+    unfold handleRx
+    simp only [touch_node, hst, Stage.hdr]
+    have hrec : receive E now w from_ dg = (w.touch now from_ dg).groupAccept now from_ c hh p := by
+      unfold receive
+      simp only [touch_node, hst]
+    rw [hrec]
+    have hok : ∀ a nw h' p', ((w.touch now from_ dg).groupAccept now from_ c hh p).1 = .ok a nw h' p' → h' = hh := by
+      intro a nw h' p' hx
+      unfold World.groupAccept at hx
+      simp only at hx
+      split at hx
+      · cases hx
+      · split at hx
+        · cases hx
+        · exact deliverLast_out.1 a nw h' p' hx
+    rcases groupAccept_node (w.touch now from_ dg) now from_ c hh p with h1 | h1 | ⟨hfull, _⟩
+    · rw [touch_node] at h1
+      refine react_keeps (by rw [h1]; exact hi) ?_ hok (fun _ => henc)
+      intro j hj
+      rw [h1, hfn] at hj
+      cases hj
+    · rw [touch_node] at h1
+      refine react_keeps (by rw [h1, List.getElem?_append_left hil]; exact hi) ?_ hok (fun _ => henc)
+      intro j hj
+      rw [h1] at hj
+      have := findRx_append_none hfn hj
+      omega
+    · rw [touch_node] at hfull
+      omega
+
+/-- `C03_rx_full` holds. -/
+theorem C03_rx_full_holds : C03_rx_full := by
+  intro E now x w from_ dg r hb hm hr hna hroom
+  obtain ⟨i, hi⟩ := List.getElem?_of_mem hm
+  exact handleRx_keeps_inauthentic_session hb hi hr hna hroom
+
 
 /-! ## Non-vacuity: concrete instances of every implication -/
 namespace Ex
